@@ -112,3 +112,32 @@ package tax
 //@   ensures cd == nil ==> r == other
 //@   ensures cd != nil && other == nil ==> r == cd
 //@   ensures [other] other != nil ==> other.CopyTax == old(other.CopyTax) || other == cd
+//
+// ---- C20: tax summaries combine component-wise
+//
+//@ pred wfTotal(t *Total) bool = forall i int :: 0 <= i && i < len(t.Categories) ==> t.Categories[i] != nil && (forall j int :: 0 <= j && j < len(t.Categories[i].Rates) ==> t.Categories[i].Rates[j] != nil)
+// rowCopy: b is an independent copy of row a (no mutable object shared: the surcharge record is duplicated)
+//@ pred rowCopy(a *RateTotal, b *RateTotal) bool = b.Key == a.Key && b.Country == a.Country && b.Ext == a.Ext && b.Base == a.Base && b.Amount == a.Amount && b.Percent == a.Percent && \
+//@     (a.Surcharge == nil ==> b.Surcharge == nil) && (a.Surcharge != nil ==> b.Surcharge != nil && fresh(b.Surcharge) && b.Surcharge.Percent == a.Surcharge.Percent && b.Surcharge.Amount == a.Surcharge.Amount)
+// catCopy: b is an independent copy of category a, row by row
+//@ pred catCopy(a *CategoryTotal, b *CategoryTotal) bool = b.Code == a.Code && b.Retained == a.Retained && b.Amount == a.Amount && b.amount == a.amount && \
+//@     (a.Surcharge == nil ==> b.Surcharge == nil) && (a.Surcharge != nil ==> b.Surcharge != nil && fresh(b.Surcharge) && *b.Surcharge == *a.Surcharge) && \
+//@     len(b.Rates) == len(a.Rates) && (len(a.Rates) > 0 ==> fresh(b.Rates)) && \
+//@     (forall j int :: 0 <= j && j < len(a.Rates) ==> b.Rates[j] != nil && fresh(b.Rates[j]) && rowCopy(a.Rates[j], b.Rates[j]))
+//
+//@ func (t *Total) Clone() (nt)
+//@   requires t != nil ==> wfTotal(t)
+//@   ensures t == nil ==> nt == nil
+//@   ensures [shape] t != nil ==> nt != nil && fresh(nt) && nt.Sum == t.Sum && nt.sum == t.sum && len(nt.Categories) == len(t.Categories) && fresh(nt.Categories)
+//@   ensures [deep] t != nil ==> (forall i int :: 0 <= i && i < len(t.Categories) ==> nt.Categories[i] != nil && fresh(nt.Categories[i]) && catCopy(t.Categories[i], nt.Categories[i]))
+//@   ensures [distinct] t != nil ==> (forall i int, k int :: 0 <= i && i < k && k < len(t.Categories) ==> nt.Categories[i] != nt.Categories[k])
+//@   loop 1 invariant nt != nil && fresh(nt) && len(nt.Categories) == len(t.Categories) && fresh(nt.Categories)
+//@   loop 1 invariant forall i int :: 0 <= i && i < idx ==> nt.Categories[i] != nil && fresh(nt.Categories[i]) && catCopy(t.Categories[i], nt.Categories[i])
+//@   loop 1 invariant forall i int, k int :: 0 <= i && i < k && k < idx ==> nt.Categories[i] != nt.Categories[k]
+//@   loop 2 invariant nt != nil && fresh(nt) && len(nt.Categories) == len(t.Categories) && fresh(nt.Categories)
+//@   loop 2 invariant forall i int :: 0 <= i && i < idx1 ==> nt.Categories[i] != nil && fresh(nt.Categories[i]) && catCopy(t.Categories[i], nt.Categories[i])
+//@   loop 2 invariant forall i int, k int :: 0 <= i && i < k && k <= idx1 ==> nt.Categories[i] != nt.Categories[k]
+//@   loop 2 invariant nt.Categories[idx1] != nil && fresh(nt.Categories[idx1]) && nt.Categories[idx1].Code == t.Categories[idx1].Code && nt.Categories[idx1].Retained == t.Categories[idx1].Retained && nt.Categories[idx1].Amount == t.Categories[idx1].Amount && nt.Categories[idx1].amount == t.Categories[idx1].amount
+//@   loop 2 invariant (t.Categories[idx1].Surcharge == nil ==> nt.Categories[idx1].Surcharge == nil) && (t.Categories[idx1].Surcharge != nil ==> nt.Categories[idx1].Surcharge != nil && fresh(nt.Categories[idx1].Surcharge) && *nt.Categories[idx1].Surcharge == *t.Categories[idx1].Surcharge)
+//@   loop 2 invariant len(nt.Categories[idx1].Rates) == len(t.Categories[idx1].Rates) && fresh(nt.Categories[idx1].Rates)
+//@   loop 2 invariant forall j int :: 0 <= j && j < idx ==> nt.Categories[idx1].Rates[j] != nil && fresh(nt.Categories[idx1].Rates[j]) && rowCopy(t.Categories[idx1].Rates[j], nt.Categories[idx1].Rates[j])
